@@ -94,6 +94,17 @@ class NumpyTheory:
             g = lambda k: fa2(k) * fb2(k)
         elif isinstance(op, ast.Div):
             g = lambda k: fa2(k) / fb2(k)
+        elif isinstance(op, ast.Pow) and nb is None and const_int(fb(0)) == 2:
+            # x ** 2 elementwise: abstracted as sq(x) with sq(t) >= 0 and (sq(t) == 0 iff t == 0)  (enough for nearest-first arguments)
+            SQ = z3.Function('sq', z3.RealSort(), z3.RealSort())
+            tq = z3.Real(fresh_name('t'))
+            ax = z3.ForAll([tq], z3.And(SQ(tq) >= 0, (SQ(tq) == 0) == (tq == 0)))
+            if not any(getattr(t_, '_ax_key', None) == 'sq' for t_ in st.pc):
+                ax._ax_key = 'sq'
+                st.pc.append(ax)
+            real = True
+            fr = (lambda k: z3.ToReal(fa(k))) if ta == 'int' else fa
+            g = lambda k: SQ(fr(k))
         elif isinstance(op, ast.FloorDiv) and not real and nb is None and const_int(fb(0)) is not None and const_int(fb(0)) > 0:
             g = lambda k: fa(k) / fb(k)
         elif isinstance(op, ast.Mod) and not real and nb is None and const_int(fb(0)) is not None and const_int(fb(0)) > 0:
@@ -443,6 +454,64 @@ class NumpyTheory:
             return None
         ps = lambda k: as_int(self.call_builtin('psum', [x, VInt(k + 1)], {}, st, node))
         return self.pointwise(st, 'int', c.length, ps, 'cumsum')
+
+    def np_np_argsort(self, args, kw, st, node):
+        """permutation (ghost inverse) putting the keys in non-decreasing order; ties keep input order only for stable kinds"""
+        x = self.as_array(args[0], st)
+        c = self.acell(x, st)
+        if c.etype not in ('int', 'real'):
+            return None
+        X, n = c.leaves[0], c.length
+        kind = kw.get('kind')
+        stable = isinstance(kind, VStr) and kind.s in ('stable', 'mergesort')
+        res, leaves = self.new_arr(st, 'int', n, 'argsort')
+        P = leaves[0]
+        inv = z3.Function(fresh_name('asinv'), z3.IntSort(), z3.IntSort())
+        i, j = z3.Int(fresh_name('i')), z3.Int(fresh_name('j'))
+        st.assume(z3.ForAll([i], z3.Implies(z3.And(i >= 0, i < n), z3.And(P[i] >= 0, P[i] < n, inv(P[i]) == i))))
+        st.assume(z3.ForAll([i], z3.Implies(z3.And(i >= 0, i < n), z3.And(inv(i) >= 0, inv(i) < n, P[inv(i)] == i, X[P[inv(i)]] == X[i]))))   # (last conjunct: trigger on reads of the key)
+        st.assume(z3.ForAll([i, j], z3.Implies(z3.And(i >= 0, i < j, j < n), X[P[i]] <= X[P[j]])))
+        if stable:
+            st.assume(z3.ForAll([i, j], z3.Implies(z3.And(i >= 0, i < j, j < n, X[P[i]] == X[P[j]]), P[i] < P[j])))
+        res.inv = inv
+        return res
+
+    def np_np_argmax(self, args, kw, st, node):
+        x = self.as_array(args[0], st)
+        c = self.acell(x, st)
+        if c.etype not in ('int', 'real') or kw:
+            return None
+        X, n = c.leaves[0], c.length
+        self.oblige(st, 'pre', 'np.argmax.non-empty', n >= 1, node, raises='ValueError')
+        r = z3.Int(fresh_name('argmax'))
+        k = z3.Int(fresh_name('k'))
+        st.assume(z3.And(r >= 0, r < n))
+        st.assume(z3.ForAll([k], z3.Implies(z3.And(k >= 0, k < n), X[k] <= X[r])))
+        st.assume(z3.ForAll([k], z3.Implies(z3.And(k >= 0, k < r), X[k] < X[r])))      # first maximiser
+        return VInt(r)
+
+    def np_np_intersect1d(self, args, kw, st, node):
+        a, b = self.as_array(args[0], st), self.as_array(args[1], st)
+        ca, cb = self.acell(a, st), self.acell(b, st)
+        if ca.etype != 'int' or cb.etype != 'int' or kw:
+            return None
+        A, B = ca.leaves[0], cb.leaves[0]
+        res, m = st.heap.fresh_list('int', 'isect')
+        R = st.heap.lists[res.ref].leaves[0]
+        ia = z3.Function(fresh_name('ia'), z3.IntSort(), z3.IntSort())
+        ib = z3.Function(fresh_name('ib'), z3.IntSort(), z3.IntSort())
+        pos = z3.Function(fresh_name('ipos'), z3.IntSort(), z3.IntSort(), z3.IntSort())
+        i, j, p, q = z3.Int(fresh_name('i')), z3.Int(fresh_name('j')), z3.Int(fresh_name('p')), z3.Int(fresh_name('q'))
+        st.assume(z3.And(m >= 0, m <= ca.length, m <= cb.length))
+        st.assume(z3.ForAll([i, j], z3.Implies(z3.And(i >= 0, i < j, j < m), R[i] < R[j])))
+        st.assume(z3.ForAll([i], z3.Implies(z3.And(i >= 0, i < m), z3.And(ia(i) >= 0, ia(i) < ca.length, A[ia(i)] == R[i], ib(i) >= 0, ib(i) < cb.length, B[ib(i)] == R[i]))))
+        st.assume(z3.ForAll([p, q], z3.Implies(z3.And(p >= 0, p < ca.length, q >= 0, q < cb.length, A[p] == B[q]), z3.And(pos(p, q) >= 0, pos(p, q) < m, R[pos(p, q)] == A[p]))))
+        return VList(res.ref, nd=True)
+
+    def np_np_isnan(self, args, kw, st, node):
+        # reals carry no NaN (A-REAL; NaN-related clauses are bounded only)
+        c = self.acell(self.as_array(args[0], st), st)
+        return self.pointwise(st, 'bool', c.length, lambda k: z3.BoolVal(False), 'isnan')
 
     # methods of arrays ---------------------------------------------------------------------------------------------
     def nd_method(self, arr, name, args, kw, st, node):
